@@ -4,6 +4,7 @@ import shutil
 import signal
 
 from pv import gallina as G
+from props._c05_tables import gen_tables  # noqa: F401  (translator hook: coq/Gen/C05_Tables.v from the source's ast)
 from pv.canon import Exc, T, Val, outcome
 
 ID = "C05"
@@ -31,7 +32,8 @@ ASSUMPTIONS = ["the table is static during one call except for the victims remov
 EXHAUSTIVE = {"quick": "all 36 tables over PIDs {5,7} x ppid in {5,7,unlisted 3} x start in {10,20}, every caller, all four calls; all 36 tables "
                        "over root 2 + PIDs {5,7} x ppid in {2,5,7} x start in {10,20}, every caller, every other process as victim, every "
                        "stat-open index 0..3 (children), 0..2 (parent), 0..6 (parents); all 36 tables over PIDs {1,2} x ppid in {1,2,unlisted 0} x "
-                       "start tick in {0,1}, every caller, all four calls, cold and after [create_time(), clock step +100 s, boot_time()]",
+                       "start tick in {0,1}, every caller, all four calls, cold and after [create_time(), clock step +100 s, boot_time()]; "
+                       "13 seed-generated big tables (chain 1100, chain/comb 300 under recursion limit 150 or a deep stack, star 2000)",
               "thorough": "all 1728 tables over PIDs {4,6,9} x ppid in {4,6,9,unlisted 2} x start in {10,20,30}, every caller, all four calls; "
                           "the same vanish-point enumeration as quick"}
 CASE_TIMEOUT = 30
@@ -419,7 +421,7 @@ def _vanish_exhaustive():
 
 
 def gen_cases(rng, tier):
-    n_rand = {"quick": 350, "thorough": 14000, "search": 2500}[tier]
+    n_rand = {"quick": 250, "thorough": 14000, "search": 2500}[tier]
     max_hang = {"quick": 40, "thorough": 400, "search": 40}[tier]
     cases = []
     hang = 0
@@ -439,13 +441,13 @@ def gen_cases(rng, tier):
         cases.extend(_vanish_exhaustive())
         cases.extend(_tick0_exhaustive())
     # ---- multi-step histories (warm process_iter() cache) and vanish points
-    n_hist = {"quick": 200, "thorough": 4000, "search": 800}[tier]
-    n_van = {"quick": 150, "thorough": 4000, "search": 600}[tier]
+    n_hist = {"quick": 150, "thorough": 4000, "search": 800}[tier]
+    n_van = {"quick": 100, "thorough": 4000, "search": 600}[tier]
     for _ in range(n_hist):
         cases.append(_history_case(rng))
     for _ in range(n_van):
         cases.append(_vanish_case(rng))
-    for _ in range({"quick": 300, "thorough": 4000, "search": 800}[tier]):
+    for _ in range({"quick": 250, "thorough": 4000, "search": 800}[tier]):
         cases.append(_clock_case(rng))
     for _ in range({"quick": 30, "thorough": 400, "search": 60}[tier]):
         cases.append(_unknown_ident_case(rng))
@@ -494,6 +496,11 @@ def gen_cases(rng, tier):
         if len(tab) < 2:
             cls = "trivial"
         cases.append(_mk(op, tab, pid, ident, cached, cache, gone, cls))
+    # ---- size / depth: spread over the case list so that the (slower) Coq evaluations land in different shards
+    big = _big_cases()
+    step = max(1, len(cases) // (len(big) + 1))
+    for i, c in enumerate(big):
+        cases.insert(min(len(cases), (i + 1) * step + i), c)
     return cases
 
 
@@ -529,7 +536,57 @@ def clock_events(case):
     return [["ct"]] if case["cached"] else []
 
 
+SHAPES = {"chain": 0, "star": 1, "comb": 2}
+
+
+def big_table(big):
+    """The table of a 'big' case from its seed -- the same definition as gen_chain / gen_star / gen_comb in coq/C05/Spec.v."""
+    n, w = big["n"], big.get("w", 0)
+    if big["shape"] == "chain":
+        return [[i, i - 1, i] for i in range(1, n + 1)]
+    if big["shape"] == "star":
+        return [[1, 0, 1]] + [[i, 1, i] for i in range(2, n + 2)]
+    if big["shape"] == "comb":
+        return [[i, i - 1, i] for i in range(1, n + 1)] + \
+               [[n + (i - 1) * w + j, i, i] for i in range(1, n + 1) for j in range(1, w + 1)]
+    raise ValueError(big)
+
+
+def _big_cases():
+    """Depth and width beyond the interpreter's recursion limit: chains of 1100 (default limit 1000), chains / combs of 300
+    under sys.setrecursionlimit(150) or called from a Python stack that is already ~850 frames deep, a star of 2000."""
+    out = []
+
+    def add(op, shape, n, k, w=0, limit=None, deep=0, cache=None):
+        tab0 = {"chain": k, "star": k, "comb": None}[shape]
+        ident = tab0 if tab0 is not None else dict((e[0], e[2]) for e in big_table({"shape": shape, "n": n, "w": w}))[k]
+        c = _mk(op, [], k, ident, False, cache, [], "big-%s-%s%s%s" % (shape, op, "-limit" if limit else "", "-deepstack" if deep else ""))
+        c["big"] = {"shape": shape, "n": n, "w": w}
+        if limit:
+            c["limit"] = limit
+        if deep:
+            c["deep"] = deep
+        out.append(c)
+    add("children_rec", "chain", 1100, 1)
+    add("children_rec", "chain", 1100, 500)
+    add("parents", "chain", 1100, 1100)
+    add("parent", "chain", 1100, 1100)
+    add("children_rec", "chain", 300, 1, limit=150)
+    add("parents", "chain", 300, 300, limit=150)
+    add("children_rec", "chain", 300, 2, deep=850)
+    add("parents", "chain", 300, 299, deep=850)
+    add("children", "star", 2000, 1)
+    add("children_rec", "star", 2000, 1, limit=150)
+    add("children_rec", "comb", 300, 1, w=2, limit=150)
+    add("parents", "comb", 300, 300 + 299 * 2 + 1, w=2, limit=150)
+    return out
+
+
 def coq_term(case):
+    if case.get("big"):
+        b = case["big"]
+        return "run_big %s %s %s %s %s %s %s" % (_fx(), G.z(OPS.index(case["op"])), G.z(SHAPES[b["shape"]]), G.z(b["n"]),
+                                                 G.z(b.get("w", 0)), G.z(case["pid"]), G.opt(case["cache"], G.z))
     tab = G.lst(["(%s,%s,%s)" % (G.z(p), G.z(pp), G.z(s)) for p, pp, s in case["tab"]])
     evs = G.lst([t for t in (_hev(e, case) for e in clock_events(case)) if t])
     obj = "(mk_obj %s %s %s %s %s)" % (G.bo(not case.get("unknown_ident")), G.z(case["pid"]), G.z(case["ident"]), G.z(BTIME0), evs)
@@ -641,7 +698,7 @@ def impl_run(case, coq, env):
     fp = fakeproc.FakeProc(root, btime=BTIME0)   # wipes and recreates the tree, writes /proc/stat (btime)
     fakeproc.attach(psutil, root)         # also clears psutil._pmap / _pids_reused
     clk = _pslinux.CLOCK_TICKS
-    tab = case["tab"]
+    tab = big_table(case["big"]) if case.get("big") else case["tab"]
     pid, ident = case["pid"], case["ident"]
     order = [e[0] for e in tab]
     hist = case.get("hist")
@@ -776,9 +833,21 @@ def impl_run(case, coq, env):
         "parents": (lambda: obj.parents(), conv_list),
     }[op]
 
+    def deep_call(fn, d):
+        return fn() if d <= 0 else deep_call(fn, d - 1)
+
     def run():
+        import sys
+        old_limit = sys.getrecursionlimit()
         try:
-            return call()
+            if case.get("limit"):
+                sys.setrecursionlimit(case["limit"])        # a lowered recursion limit around the call
+            try:
+                return deep_call(call, case.get("deep", 0))      # ... or a call from an already deep Python stack
+            finally:
+                sys.setrecursionlimit(old_limit)
+        except RecursionError:
+            raise _Recursion() from None
         except psutil.NoSuchProcess as e:
             if e.pid != pid:
                 raise _OtherNSP() from None
@@ -802,6 +871,8 @@ def impl_run(case, coq, env):
             res = T("Timeout")
         if res == Exc("_OtherNSP"):
             res = Exc("NoSuchProcessOther")
+        if res == Exc("_Recursion"):
+            res = Exc("RecursionError")
     finally:
         builtins.open = real_open
         signal.signal(signal.SIGALRM, old_handler)
@@ -809,6 +880,10 @@ def impl_run(case, coq, env):
         psutil._ppid_map = real_ppid_map
         psutil._LOWEST_PID = old_lowest
     return res
+
+
+class _Recursion(Exception):
+    """RecursionError escaped from the call."""
 
 
 class _OtherNSP(Exception):
